@@ -52,6 +52,7 @@ Accepts(ev) ==
     [] ev.e = "Destroyed" -> TRUE
     [] ev.e = "panic" -> G("C09", "NoPanicInLegalState", FALSE)
     [] ev.e = "crash" -> G("C09", "NoCrash", FALSE)
+    [] ev.e = "hang" -> G("C09", "EveryCallReturns", FALSE)
     [] OTHER -> G("C09", "UnmatchableEvent", FALSE)
 
 Apply(ev) ==
